@@ -2,6 +2,7 @@ package rules
 
 import (
 	"fmt"
+	"go/token"
 	"go/types"
 	"strings"
 
@@ -367,6 +368,73 @@ func runC05(p *core.Prog, r *core.Report, tier string) {
 	}
 	r.Floor("C05.i step contexts on the way to signing", nCtx, 2)
 
+	// ---- (k) what is signed is assembled field for field: in the signer, a parameter that is passed on under a name
+	// the signer itself has a parameter for (a field of a literal, a named parameter of the callee) is that parameter ----
+	nPass := 0
+	for _, f := range p.FuncsIn("services/signer/standard") {
+		if f.Parent() != nil {
+			continue
+		}
+		byName := map[string]*ssa.Parameter{}
+		for _, prm := range f.Params {
+			byName[strings.ToLower(prm.Name())] = prm
+		}
+		check := func(slot string, v ssa.Value, pos token.Pos, what string) {
+			prm := passedParameter(v)
+			want := byName[strings.ToLower(slot)]
+			if prm == nil || want == nil || byName[strings.ToLower(prm.Name())] != prm || strings.HasSuffix(prm.Type().String(), "context.Context") {
+				return
+			}
+			nPass++
+			r.Check(prm == want, "C05.k", fmt.Sprintf("%s|%s|%s", core.FnKey(f), what, slot), p.Pos(pos), "the signer's parameter of the same name is passed on",
+				fmt.Sprintf("%s %s receives the signer's parameter %q although the signer has a parameter %q: what is signed is not the object the caller described (the signature will not verify against the block that is published)", what, slot, prm.Name(), want.Name()))
+		}
+		core.EachInstr(f, func(in ssa.Instruction) {
+			if a, ok := in.(*ssa.Alloc); ok {
+				pt, _ := a.Type().(*types.Pointer)
+				if pt == nil {
+					return
+				}
+				nt, _ := pt.Elem().(*types.Named)
+				if nt == nil {
+					return
+				}
+				if _, isStruct := nt.Underlying().(*types.Struct); !isStruct {
+					return
+				}
+				for _, sl := range core.StructLits(f, nt.Obj().Name()) {
+					if sl.Alloc != a {
+						continue
+					}
+					for name, v := range sl.Fields {
+						pos := a.Pos()
+						if st := sl.Stores[name]; st != nil {
+							pos = st.Pos()
+						}
+						check(name, v, pos, "field "+nt.Obj().Name()+".")
+					}
+				}
+				return
+			}
+			ci, ok := in.(ssa.CallInstruction)
+			if !ok {
+				return
+			}
+			sig := ci.Common().Signature()
+			args := ci.Common().Args
+			off := 0
+			if !ci.Common().IsInvoke() && sig.Recv() != nil {
+				off = 1
+			}
+			for i := 0; i < sig.Params().Len() && i+off < len(args); i++ {
+				if n := sig.Params().At(i).Name(); n != "" && n != "_" {
+					check(n, args[i+off], ci.Pos(), "parameter of "+core.CalleeName(ci.Common())+":")
+				}
+			}
+		})
+	}
+	r.Floor("C05.k same-named parameters passed on in the signer", nPass, 20)
+
 	// ---- (h) maybe-nil dereferences in the package ----
 	nDeref := 0
 	for _, f := range fns {
@@ -628,4 +696,44 @@ func checkUnblinder(p *core.Prog, r *core.Report, ds *core.Describer, f *ssa.Fun
 			r.Check(okv, "C05.e", base+"|store-"+id.Name+"|from-response", p.Pos(st.Pos()), "proposal."+id.Name+" <- the relay response's "+id.Name, "proposal."+id.Name+" is not taken from the relay response: "+d.String())
 		}
 	})
+}
+
+// passedParameter: v is a parameter of the enclosing function, possibly converted, sliced or spilled to a local that
+// is written once.
+func passedParameter(v ssa.Value) *ssa.Parameter {
+	for depth := 0; depth < 6; depth++ {
+		switch x := v.(type) {
+		case *ssa.Parameter:
+			return x
+		case *ssa.Convert:
+			v = x.X
+		case *ssa.ChangeType:
+			v = x.X
+		case *ssa.Slice:
+			v = x.X
+		case *ssa.UnOp:
+			if x.Op != token.MUL {
+				return nil
+			}
+			v = x.X
+		case *ssa.Alloc:
+			var only ssa.Value
+			n := 0
+			if x.Referrers() != nil {
+				for _, ref := range *x.Referrers() {
+					if st, ok := ref.(*ssa.Store); ok && st.Addr == ssa.Value(x) {
+						n++
+						only = st.Val
+					}
+				}
+			}
+			if n != 1 {
+				return nil
+			}
+			v = only
+		default:
+			return nil
+		}
+	}
+	return nil
 }
